@@ -25,7 +25,8 @@ BASES = {'Transformer': Transformer, 'Transformer_NonRecursive': Transformer_Non
          'Transformer_InPlace': Transformer_InPlace, 'Transformer_InPlaceRecursive': Transformer_InPlaceRecursive}
 RULE_NAMES = ('start', 'a', 'ali', 't')
 TOK_NAMES = ('X', '_Y')
-VARIANTS = ('plain', 'inline', 'tree', 'subset', 'notok', 'toknone')       # toknone: the callback of X returns None
+# toknone: the callback of X returns None; rulenone: the callbacks of the rules a / ali return None
+VARIANTS = ('plain', 'inline', 'tree', 'subset', 'notok', 'toknone', 'rulenone')
 
 
 def make_transformer(base, variant, log=None, visit_tokens=True):
@@ -45,6 +46,11 @@ def make_transformer(base, variant, log=None, visit_tokens=True):
                 if log is not None:
                     log.append(name)
                 return ('node', name, str(tree.data), tuple(tree.children))
+        elif variant == 'rulenone' and name in ('a', 'ali'):
+            def f(self, children):
+                if log is not None:
+                    log.append(name)
+                return None
         else:
             def f(self, children):
                 if log is not None:
@@ -126,7 +132,7 @@ def check(g, gi, boxname, b, inputs, res, only=None):
                     p = ('ok', canon(post[1])) if post[0] == 'ok' else (post[0], type(post[1]).__name__, str(getattr(post[1], 'orig_exc', post[1]))[:80])
                     if e != p:
                         cause = 'embedded-vs-posthoc'
-                        if base == 'Transformer_InPlace' and variant in ('plain', 'subset', 'notok', 'toknone'):
+                        if base == 'Transformer_InPlace' and variant in ('plain', 'subset', 'notok', 'toknone', 'rulenone'):
                             cause = 'inplace-embedded-undecorated'
                         res['viol'].append({'kind': 'embedded-differs-from-posthoc', 'cause': cause, 'case': dict(cfg, input=w),
                                             'expected': p, 'observed': e})
